@@ -10,49 +10,6 @@ Section Program.
 
   Definition sub_env (c c' : cenv) : Prop := forall n r, c n = Some r -> c' n = Some r.
 
-  (* on an expression that evaluates, the class predicates do not depend on how much more the
-     environment knows *)
-  Lemma classes_mono c c' : sub_env c c' ->
-    (forall e r, cexpr ds c e = POk r ->
-       unvalued_bound ds c e = unvalued_bound ds c' e) /\
-    (forall es t i rs, cexpr_list ds c t i es = inr rs ->
-       unvalued_bound_list ds c es = unvalued_bound_list ds c' es /\
-       all_int_valued ds c es = all_int_valued ds c' es).
-  Proof.
-    intros M. pose proof (cexpr_mono ds c c' M) as [ME ML].
-    apply expr_mutind.
-    - reflexivity.
-    - reflexivity.
-    - intros t es IH r H. rewrite cexpr_node in H.
-      destruct (cexpr_list ds c t 0 es) as [p|rs] eqn:E.
-      + exfalso. eapply cexpr_list_inl; eassumption.
-      + destruct (IH _ _ _ E) as [U A].
-        change (bounds_unvalued ds c t es || unvalued_bound_list ds c es =
-                bounds_unvalued ds c' t es || unvalued_bound_list ds c' es).
-        rewrite U. f_equal.
-        destruct t; try reflexivity. destruct es as [|b rest]; [reflexivity|].
-        rewrite cexpr_list_cons in E. destruct (cexpr ds c b) as [x|x|rb] eqn:EB; try discriminate.
-        destruct (precheck (NSlice lo hi st) 0 rb); [discriminate|].
-        destruct (cexpr_list ds c (NSlice lo hi st) 1 rest) as [p|rs'] eqn:E2; [discriminate|].
-        cbn. rewrite EB, (ME _ _ EB).
-        change (all_int_valued ds c (ECons b rest)) with (pvalued_int (cexpr ds c b) && all_int_valued ds c rest) in A.
-        change (all_int_valued ds c' (ECons b rest)) with (pvalued_int (cexpr ds c' b) && all_int_valued ds c' rest) in A.
-        rewrite EB, (ME _ _ EB) in A.
-        rewrite (all_int_valued_rs ds c _ _ _ _ E2), (all_int_valued_rs ds c' _ _ _ _ (ML _ _ _ _ E2)). reflexivity.
-    - intros t i rs _. split; reflexivity.
-    - intros e IHe rest IHr t i rs H. rewrite cexpr_list_cons in H.
-      destruct (cexpr ds c e) as [x|x|r] eqn:E; try discriminate.
-      destruct (precheck t i r); [discriminate|].
-      destruct (cexpr_list ds c t (S i) rest) as [p|rs'] eqn:E2; [discriminate|].
-      destruct (IHr _ _ _ E2) as [U A]. split.
-      + change (unvalued_bound ds c e || unvalued_bound_list ds c rest =
-                unvalued_bound ds c' e || unvalued_bound_list ds c' rest).
-        now rewrite (IHe r eq_refl), U.
-      + change (pvalued_int (cexpr ds c e) && all_int_valued ds c rest =
-                pvalued_int (cexpr ds c' e) && all_int_valued ds c' rest).
-        now rewrite E, (ME _ _ E), A.
-  Qed.
-
   Variable pw : Z -> Z -> Z.
   Variable rho : name -> option value.
   Hypothesis RC : rt_consistent pw ds rho.
@@ -69,10 +26,9 @@ Section Program.
 
   (* along the (topologically sorted) cache: values agree with run time and are well typed *)
   Lemma cache_agrees s : check_all ds = Some s ->
-    (forall d, In d ds -> unvalued_bound ds (lookup (cache s)) (dinit d) = false) ->
     env_agree (lookup (cache s)) rho /\ (forall n r, lookup (cache s) n = Some r -> res_wt r).
   Proof.
-    intros E NU.
+    intros E.
     destruct (check_all_ok ds) as (s' & E' & G & _). rewrite E in E'. injection E' as <-.
     assert (forall rest pre, cache s = pre ++ rest ->
               env_agree (lookup rest) rho /\ (forall n r, lookup rest n = Some r -> res_wt r)) as K.
@@ -82,14 +38,10 @@ Section Program.
         destruct (IH _ H2) as [EA CW].
         destruct (g_topo _ _ G pre n r rest H) as (d & F & C).
         destruct (find_decl_some _ _ _ F) as [DN DI].
-        assert (sub_env (lookup rest) (lookup (cache s))) as SUB.
-        { rewrite H2. apply lookup_suffix_sub. rewrite <- H2. apply (g_nodup _ _ G). }
-        assert (unvalued_bound ds (lookup rest) (dinit d) = false) as NU'.
-        { rewrite (proj1 (classes_mono _ _ SUB) _ _ C). apply NU; exact DI. }
         split.
         + intros m rm v L V. cbn in L. destruct (n =? m) eqn:Q; [|eapply EA; eassumption].
           apply Z.eqb_eq in Q. subst m. injection L as <-.
-          pose proof (proj1 (value_agrees ds (lookup rest) pw rho EA) _ NU' _ _ C V) as RT.
+          pose proof (proj1 (value_agrees ds (lookup rest) pw rho EA) _ _ _ C V) as RT.
           pose proof (RC d DI) as RCd. rewrite DN in RCd. specialize (RCd F). rewrite RT in RCd. exact RCd.
         + intros m rm L. cbn in L. destruct (n =? m) eqn:Q; [|eapply CW; eassumption].
           injection L as <-. exact (proj1 (results_well_typed ds (lookup rest) CW) _ _ C). }
